@@ -251,6 +251,9 @@ impl TDigestMut {
         for &c in &other.centroids {
             tmp.push(c);
         }
+        // The other digest's extremes can lie beyond its first and last centroid means.
+        self.min = self.min.min(other.min);
+        self.max = self.max.max(other.max);
         self.do_merge(tmp, self.buffer.len() as u64 + other.total_weight())
     }
 
